@@ -22,6 +22,7 @@ func init() {
 				clAssembleTable(c)
 				clSkiplistNextAdvancesOnce(c)
 				clTerminatorAlways(c)
+				clStreamPrivateState(c)
 			})
 			c.Do("C05.e", "L2 restored count source and verification", 8, func() { clRestoredCount(c); clVerificationPrecedesAcceptance(c); clRestoreItemSize(c) })
 		},
